@@ -166,6 +166,10 @@ func (sll *LinuxSLL2) DecodeFromBytes(data []byte, df gopacket.DecodeFeedback) e
 	sll.ARPHardwareType = ARPHardwareType(binary.BigEndian.Uint16(data[8:10]))
 	sll.PacketType = LinuxSLL2PacketType(data[10])
 	sll.AddrLength = data[11]
+	if len(data) < int(sll.AddrLength)+12 {
+		df.SetTruncated()
+		return errors.New("Linux SLL2 address length exceeds packet size")
+	}
 	sll.Addr = data[12:20]
 	sll.Addr = sll.Addr[:sll.AddrLength]
 	sll.BaseLayer = BaseLayer{data[:20], data[20:]}
